@@ -2192,6 +2192,11 @@ func (c *compiler) evaluateStructLiteral(structType *ddptypes.StructType, args m
 
 		argVal, argType, isTempArg := c.evaluate(argExpr)
 
+		// implicit numeric casts, like for variable declarations
+		if fieldType := c.toIrType(field.Type); ddptypes.IsNumeric(field.Type) && argType != fieldType && (argType == c.ddpinttyp || argType == c.ddpfloattyp || argType == c.ddpbytetyp) {
+			argVal, argType = c.numericCast(argVal, argType, fieldType), fieldType
+		}
+
 		// implicit cast to any if required
 		if ddptypes.DeepEqual(field.Type, ddptypes.VARIABLE) && argType != c.ddpany {
 			vtable := argType.VTable()
